@@ -372,6 +372,35 @@ func allStacks() string {
 
 func doBatch(s *simT, cmd *proto.Cmd, out *os.File) {
 	resps := make([]proto.Resp, len(cmd.Reqs))
+	if cmd.Mode == "seqfast" {
+		// read-only sweep by one client: no scheduling decisions are taken at all
+		s.passthrough.Store(true)
+		tk := s.spawn("c0", "", func() {
+			for i := range cmd.Reqs {
+				resps[i].Client = cmd.Reqs[i].Client
+				resps[i].Invoke = s.seq.Add(1)
+				execReq(&cmd.Reqs[i], &resps[i])
+				resps[i].Return = s.seq.Add(1)
+				resps[i].Done = true
+			}
+		})
+		wedged := s.run(func() bool { return tk.done.Load() }, false)
+		s.passthrough.Store(false)
+		res := s.collect()
+		res.OK = !wedged
+		res.Wedged = wedged
+		if wedged {
+			res.Stacks = allStacks()
+			for i := range resps {
+				if !resps[i].Done {
+					resps[i] = proto.Resp{Client: resps[i].Client}
+				}
+			}
+		}
+		res.Resps = resps
+		writeResult(out, res)
+		return
+	}
 	if cmd.Mode == "seq" {
 		// one client issues the requests one after another; background work is
 		// drained after each request and at the end
